@@ -213,6 +213,17 @@ func checkCacheLoader(p *Prog, r *Report) {
 	}
 	r.Check(okL && nPut > 0, "C11.R2", name+"/store", pos, "each accepted line stores exactly (ParseIP(line.ip) -> ParseMAC(line.mac)); decode and parse errors abort the load", whyL)
 	checkScannerDiscipline(p, r, loader, "C11.R2")
+	subS := NewReport("C11", r.Tier)
+	checkStaleDecodeTarget(p, subS, loader)
+	if len(subS.Obs) == 0 {
+		r.Viol("C11.R2", name+"/decode-target", pos, "the loader decodes each line into a target", "no UnmarshalJSON into a local target found")
+	}
+	for _, o := range subS.Obs {
+		o2 := *o
+		o2.Rule = "C11.R2"
+		o2.Text = "a cache line never inherits fields of the previous line: " + o.Text
+		r.Obs = append(r.Obs, &o2)
+	}
 	// 6/4 byte guard (C06.R2)
 	sub := NewReport("C11", r.Tier)
 	checkARPGuard(p, sub, proc, Paths(proc))
